@@ -150,7 +150,7 @@ func (st *SlimTrie) GetID(key string) int32 {
 		}
 
 		if qr.hasInnerPrefix {
-			r := bitstr.StrCmpUpto(key[i>>3:], qr.innerPrefix)
+			r := strCmpUpto(key[i>>3:], qr.innerPrefix)
 			if r != 0 {
 				return -1
 			}
@@ -206,6 +206,16 @@ func (st *SlimTrie) GetID(key string) int32 {
 	return eqID
 }
 
+// strCmpUpto compares the string a, truncated to the length of the bitstr b,
+// with b. A string header has no capacity field and must not be reinterpreted
+// as a slice header: only the bytes that are compared are converted.
+func strCmpUpto(a string, b []byte) int {
+	if len(a) > len(b) {
+		a = a[:len(b)]
+	}
+	return bitstr.CmpUpto([]byte(a), b)
+}
+
 func (st *SlimTrie) cmpLeafPrefix(tail string, qr *querySession) int32 {
 
 	if st.inner.LeafPrefixes != nil {
@@ -252,7 +262,7 @@ func (st *SlimTrie) searchID(key string) (lID, eqID, rID int32) {
 		}
 
 		if qr.hasInnerPrefix {
-			r := bitstr.StrCmpUpto(key[i>>3:], qr.innerPrefix)
+			r := strCmpUpto(key[i>>3:], qr.innerPrefix)
 			if r == 0 {
 				i = i&(^7) + qr.innerPrefixLen
 			} else if r < 0 {
